@@ -1,2 +1,2 @@
 (* C14 - equality and ordering operators obey their algebraic laws. *)
-From P2 Require Import Base.Prelude Sem.Num Sem.Syntax Sem.Ops Sem.Lib Sem.OpsSpec Sem.OpsProofs Generated.ValueOps.
+From P2 Require Import Base.Prelude Sem.Num Sem.Syntax Sem.Ops Sem.Lib Sem.OpsSpec Sem.OpsLaws Generated.ValueOps.
